@@ -29,7 +29,8 @@ static const char *op_names[S_N] = { "src", "transform", "filter", "repeat", "re
 #define DH 12
 #define MAXK 5
 
-static const pixman_format_code_t sfmts[4] = { PIXMAN_a8r8g8b8, PIXMAN_x8r8g8b8, PIXMAN_a8, PIXMAN_r5g6b5 };
+/* the fifth goes through the wide (floating point) pipeline */
+static const pixman_format_code_t sfmts[5] = { PIXMAN_a8r8g8b8, PIXMAN_x8r8g8b8, PIXMAN_a8, PIXMAN_r5g6b5, PIXMAN_a2r10g10b10 };
 
 typedef struct
 {
@@ -95,6 +96,28 @@ ref_pixel (const scene_t *s, int x, int y)
 
 typedef struct { int judged; uint32_t value; int tol; } ref_t;
 
+/* a2r10g10b10 source pixel as four components in [0,1] (a, r, g, b), after the repeat map */
+static void
+ref_pixel_wide (const scene_t *s, int x, int y, double out[4])
+{
+    uint32_t p;
+    out[0] = out[1] = out[2] = out[3] = 0;
+    if (!map_coord (x, s->w, s->repeat, &x) || !map_coord (y, s->h, s->repeat, &y)) return;
+    p = ((const uint32_t *)(s->bits + (long)y * s->stride))[x];
+    out[0] = (p >> 30) / 3.0; out[1] = ((p >> 20) & 0x3ff) / 1023.0; out[2] = ((p >> 10) & 0x3ff) / 1023.0; out[3] = (p & 0x3ff) / 1023.0;
+}
+
+/* what the wide pipeline stores into an 8-bit channel: floor (f * 256), 256 brought back to 255 */
+static uint32_t
+wide_to_8 (double f)
+{
+    uint32_t u;
+    if (f <= 0) return 0;
+    if (f >= 1) return 255;
+    u = (uint32_t)(f * 256.0);
+    return u - (u >> 8);
+}
+
 static ref_t
 ref_sample (const scene_t *s, int X, int Y)
 {
@@ -140,6 +163,28 @@ ref_sample (const scene_t *s, int X, int Y)
 	px = qx; py = qy;
     }
 
+    if (s->fmt == PIXMAN_a2r10g10b10)
+    {
+	/* wide sources: the blend is done in floating point with the whole 16-bit fraction as weight
+	 * (bits_image_fetch_pixel_bilinear_float), then stored through float -> 8 bits; judged to +-1 */
+	double c[4] = { 0, 0, 0, 0 };
+	int k;
+	if (filter == PIXMAN_FILTER_NEAREST || filter == PIXMAN_FILTER_FAST)
+	    ref_pixel_wide (s, (int)((px - 1) >> 16), (int)((py - 1) >> 16), c);
+	else if (filter == PIXMAN_FILTER_BILINEAR || filter == PIXMAN_FILTER_GOOD || filter == PIXMAN_FILTER_BEST)
+	{
+	    int64_t x1 = px - 0x8000, y1 = py - 0x8000;
+	    int ix = (int)(x1 >> 16), iy = (int)(y1 >> 16);
+	    double dx = (double)(x1 & 0xffff) / 65536.0, dy = (double)(y1 & 0xffff) / 65536.0;
+	    double tl[4], tr[4], bl[4], br[4];
+	    ref_pixel_wide (s, ix, iy, tl); ref_pixel_wide (s, ix + 1, iy, tr); ref_pixel_wide (s, ix, iy + 1, bl); ref_pixel_wide (s, ix + 1, iy + 1, br);
+	    for (k = 0; k < 4; k++) c[k] = tl[k] * (1 - dx) * (1 - dy) + tr[k] * dx * (1 - dy) + bl[k] * (1 - dx) * dy + br[k] * dx * dy;
+	}
+	else { out.judged = 0; return out; }
+	out.value = (wide_to_8 (c[0]) << 24) | (wide_to_8 (c[1]) << 16) | (wide_to_8 (c[2]) << 8) | wide_to_8 (c[3]);
+	out.tol = 1;
+	return out;
+    }
     switch (filter)
     {
     case PIXMAN_FILTER_NEAREST: case PIXMAN_FILTER_FAST:
@@ -272,7 +317,7 @@ decode_scene_upto (const scenario_t *sc, scene_t *s, int upto, pixman_image_t *i
 	    uint64_t x = (uint64_t)A (3) * 0x9e3779b97f4a7c15ull + 3;
 	    int bpp;
 	    size_t n, k;
-	    s->fmt = sfmts[sim_mod (A (0), 4)];
+	    s->fmt = sfmts[sim_mod (A (0), 5)];
 	    s->w = (int)sim_clamp (A (1), 1, 32767); s->h = (int)sim_clamp (A (2), 1, 64);
 	    if (s->w > 64 && s->h > 2) s->h = 2;            /* very wide sources are one or two rows high */
 	    bpp = PIXMAN_FORMAT_BPP (s->fmt);
@@ -451,7 +496,7 @@ generate (uint64_t seed, int tier, const char *property, scenario_t *sc)
 {
     rng_t r;
     int64_t m[9] = { 65536, 0, 0, 0, 65536, 0, 0, 0, 65536 };
-    int w, h, i, n_req, tclass, filter;
+    int w, h, i, n_req, tclass, filter, fit_w = 0, fit_h = 0, force_nearest = 0;
     rng_seed (&r, seed, 8);
     sc_set (sc, "chains", 0xffffffffll);
     if (rng_chance (&r, 1, 12))
@@ -482,7 +527,7 @@ generate (uint64_t seed, int tier, const char *property, scenario_t *sc)
     }
     w = rng_chance (&r, 1, 5) ? 1 : (int)rng_range (&r, 1, 64);
     h = rng_chance (&r, 1, 5) ? 1 : (int)rng_range (&r, 1, 64);
-    sc_add (sc, S_SRC, 4, (int64_t)rng_n (&r, 4), (int64_t)w, (int64_t)h, (int64_t)(rng_u64 (&r) >> 20));
+    sc_add (sc, S_SRC, 4, (int64_t)(rng_chance (&r, 1, 7) ? 4 : rng_n (&r, 4)), (int64_t)w, (int64_t)h, (int64_t)(rng_u64 (&r) >> 20));
     tclass = (int)rng_n (&r, 10);
     switch (tclass)
     {
@@ -504,6 +549,33 @@ generate (uint64_t seed, int tier, const char *property, scenario_t *sc)
 	int q = (int)rng_n (&r, 4);
 	m[0] = cs[q] * 65536; m[1] = -sn[q] * 65536; m[3] = sn[q] * 65536; m[4] = cs[q] * 65536;
 	m[2] = rng_range (&r, -10, 70) * 65536; m[5] = rng_range (&r, -10, 70) * 65536;
+	if (q && rng_chance (&r, 1, 2))
+	{
+	    /* a request that lies inside the source with the translation at either end of what
+	     * allows that (the rotation fast paths want all samples inside): sample k of n along an
+	     * axis is at +-(k + 1/2) + t and NEAREST takes floor (. - 1/65536) */
+	    int x_minus = q != 3, y_minus = q != 1, k;           /* q: 1 = 90, 2 = 180, 3 = 270 degrees */
+	    int nx, ny;
+	    int64_t lo[2], hi[2];
+	    fit_w = (int)rng_range (&r, 1, q == 2 ? (w < DW ? w : DW) : (h < DW ? h : DW));
+	    fit_h = (int)rng_range (&r, 1, q == 2 ? (h < DH ? h : DH) : (w < DH ? w : DH));
+	    nx = q == 2 ? fit_w : fit_h; ny = q == 2 ? fit_h : fit_w;
+	    lo[0] = x_minus ? (int64_t)nx * 65536 - 32768 + 1 : -32768 + 1; hi[0] = x_minus ? (int64_t)w * 65536 + 32768 : (int64_t)(w - nx) * 65536 + 32768;
+	    lo[1] = y_minus ? (int64_t)ny * 65536 - 32768 + 1 : -32768 + 1; hi[1] = y_minus ? (int64_t)h * 65536 + 32768 : (int64_t)(h - ny) * 65536 + 32768;
+	    for (k = 0; k < 2; k++)
+	    {
+		int64_t t = rng_chance (&r, 1, 4) ? lo[k] : rng_chance (&r, 1, 2) ? hi[k] : rng_range (&r, lo[k], hi[k]);
+		m[k ? 5 : 2] = t;
+	    }
+	    force_nearest = rng_chance (&r, 3, 4);
+	}
+	else
+	{
+	    /* a quarter turn puts sample positions exactly on pixel boundaries when the translation
+	     * has a fraction of one half: the place where floor (x - 1/65536) and a plain rounding part ways */
+	    static const int64_t fr[] = { 0, 0, 32768, 32768, 1, -1, 32767, 32769, 16384 };
+	    m[2] += fr[rng_n (&r, 9)]; m[5] += fr[rng_n (&r, 9)];
+	}
 	break;
     }
     case 6: case 7:
@@ -535,7 +607,7 @@ generate (uint64_t seed, int tier, const char *property, scenario_t *sc)
 	int64_t a[SIM_MAX_ARGS];
 	int n = 0, cw = (int)rng_range (&r, 1, MAXK), ch = (int)rng_range (&r, 1, MAXK), xb = (int)rng_n (&r, 3), yb = (int)rng_n (&r, 3), cnt;
 	static const int plain[] = { PIXMAN_FILTER_NEAREST, PIXMAN_FILTER_BILINEAR, PIXMAN_FILTER_NEAREST, PIXMAN_FILTER_BILINEAR, PIXMAN_FILTER_FAST, PIXMAN_FILTER_GOOD, PIXMAN_FILTER_BEST };
-	if (tclass >= 8) filter = PIXMAN_FILTER_NEAREST;
+	if (tclass >= 8 || force_nearest) filter = PIXMAN_FILTER_NEAREST;
 	else if (rng_chance (&r, 1, 4)) filter = rng_chance (&r, 1, 2) ? PIXMAN_FILTER_CONVOLUTION : PIXMAN_FILTER_SEPARABLE_CONVOLUTION;
 	else filter = plain[rng_n (&r, 7)];
 	a[n++] = filter; a[n++] = cw; a[n++] = ch; a[n++] = xb; a[n++] = yb;
@@ -558,11 +630,16 @@ generate (uint64_t seed, int tier, const char *property, scenario_t *sc)
 	}
 	sc_addv (sc, S_FILTER, n, a);
     }
-    sc_add (sc, S_REPEAT, 1, (int64_t)rng_n (&r, 4));
+    sc_add (sc, S_REPEAT, 1, (int64_t)(fit_w && rng_chance (&r, 2, 3) ? 0 : rng_n (&r, 4)));
     n_req = (int)rng_range (&r, 1, 3);
     for (i = 0; i < n_req; i++)
     {
 	int dx = rng_chance (&r, 1, 2) ? 0 : (int)rng_range (&r, 0, 10), dy = rng_chance (&r, 1, 2) ? 0 : (int)rng_range (&r, 0, 4);
+	if (fit_w && i == 0)
+	{
+	    sc_add (sc, S_REQUEST, 6, (int64_t)0, (int64_t)0, (int64_t)rng_range (&r, 0, DW - fit_w), (int64_t)rng_range (&r, 0, DH - fit_h), (int64_t)fit_w, (int64_t)fit_h);
+	    continue;
+	}
 	sc_add (sc, S_REQUEST, 6, (int64_t)rng_range (&r, -20, 40), (int64_t)rng_range (&r, -20, 40), (int64_t)dx, (int64_t)dy,
 		(int64_t)rng_range (&r, 1, DW - dx), (int64_t)rng_range (&r, 1, DH - dy));
     }
